@@ -3,7 +3,7 @@
    the arguments, the glob-oracle table and what came back; the model recomputes the discovered
    list (exact order) and files_scanned, and re-derives the summary of every observed report from
    its own violation and notice lists.  No theorems here. *)
-From Regal Require Export Model.Discover Check.C01Check.
+From Regal Require Export Model.Discover Model.Router Check.C01Check.
 
 Record tree_case := {
   tc_root : node;                           (* content of the working directory relevant to the case *)
@@ -69,3 +69,39 @@ Definition summary_agrees (c : sum_case) : bool :=
   Nat.eqb (sc_failed c) (length (nodup str_dec (sc_viol_files c))) &&
   Nat.eqb (sc_skipped c) (length (filter (fun x => negb (str_eqb (n_sev x) NONE)) (sc_notices c))) &&
   notices_nodupb (sc_notices c).
+
+(* ---- the router and H_ops (Model/Router.v), per composition workspace ------------------------ *)
+(* One row per (rule, file) for which the lint query evaluated on the file alone reported something
+   either without (or_off) or with (or_on) "collect" among input.regal.operations.  The rows are what
+   the real query returned (bundle + builtins of the tree under test, the input built by
+   transform.ToAST exactly as lintWithRegoRules does), grouped by the rule named in the violation. *)
+Record ops_row := { or_rule : str; or_file : str; or_off : list viol; or_on : list viol }.
+
+(* H_ops of c02_single_file_compose for the rule and file of the row *)
+Definition hops_row (r : ops_row) : bool := multiset_eqb viol_eqb (or_on r) (or_off r).
+(* H_loc *)
+Definition hloc_row (r : ops_row) : bool :=
+  forallb (fun v => str_eqb (v_file v) (or_file r)) (or_on r ++ or_off r).
+
+(* the oracles of Model/Router.v read off the table (ignore directives are already applied in what
+   the query returns, so [ignored] is constantly false here) *)
+Definition tbl_rules (t : list ops_row) (f : str) : list str :=
+  nodup str_dec (map or_rule (filter (fun r => str_eqb (or_file r) f) t)).
+Definition tbl_body (t : list ops_row) (r f : str) (collect : bool) : list viol :=
+  flat_map (fun row => if str_eqb (or_rule row) r && str_eqb (or_file row) f
+                       then (if collect then or_on row else or_off row) else []) t.
+
+(* what a real Linter.Lint run over ro_n files reported (non-aggregate) in file ro_file *)
+Record run_obs := { ro_n : nat; ro_file : str; ro_viol : list viol }.
+
+Record ops_case := { oc_table : list ops_row; oc_runs : list run_obs }.
+
+Definition model_run (t : list ops_row) (o : run_obs) : list viol :=
+  router_report (tbl_rules t) (tbl_body t) (fun _ _ => false) (ro_file o) (collect_flag false (ro_n o)).
+
+(* the model (router over the tabulated bodies, collect flag from the number of files) predicts the
+   per-file violations of every observed run *)
+Definition router_agrees (c : ops_case) : bool :=
+  forallb (fun o => multiset_eqb viol_eqb (model_run (oc_table c) o) (ro_viol o)) (oc_runs c).
+Definition hops_holds (c : ops_case) : bool := forallb hops_row (oc_table c).
+Definition hloc_holds (c : ops_case) : bool := forallb hloc_row (oc_table c).
